@@ -134,7 +134,8 @@ def handlers(emit, repo):
                 f.write("# hand-made input\n{\n")
                 for n, d in zip(names, descs):
                     f.write("    # game %s\n    %r: {\n" % (n, n))
-                    for k in ("rewards", "players", "transition_list", "final_states"):
+                    for k in [x for x in ("rewards", "players", "transition_list", "final_states", "prune_states")
+                              if x in d]:
                         f.write("        %r: %r,  # %s\n" % (k, d[k], k))
                     f.write("    },\n")
                 f.write("}\n")
@@ -171,6 +172,10 @@ def handlers(emit, repo):
         descs = [{k: decode(tg[k]) for k in ("rewards", "players", "transition_list", "final_states")}
                  for tg in job["tgs"]]
         # each game alone, in a fresh interpreter: no module state shared with the batch run
+        # a description may carry a prune_states entry of its own (the runner must override it)
+        for d, fl in zip(descs, job.get("flags", [])):
+            if fl in ("true", "false"):
+                d["prune_states"] = (fl == "true")
         solos = []
         runner = os.path.join(os.path.dirname(os.path.abspath(__file__)), "solo_runner.py")
         for d in descs:
